@@ -92,8 +92,8 @@ def main():
             # the specification the hook logs are replayed through is itself checked for every interleaving
             ld = design_check("MC_Lifecycle", "MC_Lifecycle.cfg", work, workers=8, timeout=600)
             if tier == "thorough" and pid in ("C09", "C11"):
-                # three tunnels (one websocket, two legacy): ~44 million distinct states, ~10 minutes on 16 cores
-                ld = design_check("MC_Lifecycle", "MC_Lifecycle3.cfg", work, workers=16, timeout=3000)
+                # three tunnels (one websocket, two legacy): 266 million distinct states, about 30-45 minutes on 16 cores
+                ld = design_check("MC_Lifecycle", "MC_Lifecycle3.cfg", work, workers=16, timeout=5400)
             lv, summary = lifecycle_violations(pid, work)
             summary["design"] = {"states": ld.get("distinct"), "transitions": ld.get("generated")}
             out.violations += lv
